@@ -6,3 +6,6 @@ open AC.Props.C10
 #print axioms C10_invariant
 #print axioms C10_uses_unique
 #print axioms AC.BigintsTie.pruneuses_tie
+#print axioms C10_src_optimize
+#print axioms C10_src_total
+#print axioms AC.OptTie.optimize_tie
